@@ -360,6 +360,17 @@ theorem processMatrix_rejects_row_length {fl : Flags} (hfl : fl.rowLenThrows = t
     | rowNext _ _ _ _ _ h6 => exact absurd h6 h2
     | matrix h3 => rw [hc] at h3; cases h3
 
+/-- The conversions are prefix-lenient, in the model as in the library: a token with trailing garbage is taken for the
+    number it starts with, and a tab is not a value separator.  So "unknown names / wrong element counts are rejected" holds
+    only for tokens that do not start with a number (`parseIndeces_rejects_unknown_name` needs `stoul tok = error`).
+    Kernel-evaluated witnesses (tests on literals): `1x` resolves to index 1; `0.5<TAB>0.25 0.5` is a 2-vector. -/
+theorem trailing_garbage_counterexample :
+    (match parseIndeces "1x".toList [] 2 with | .ok l => l == [1] | .error _ => false) = true ∧
+    (match parseVector "0.5\t0.25 0.5".toList 2, parseVector "0.5 0.5".toList 2 with
+      | .ok a, .ok b => a == b
+      | _, _ => false) = true := by
+  decide +kernel
+
 /-! ## the memory clause: every write is in bounds -/
 
 def IdxOK (map : IDMap) (max : Nat) : Prop := ∀ k v, (k, v) ∈ map → v < max
